@@ -27,7 +27,7 @@ cItems == { << <<98>>, E2 >> }
 cItems2 == { << <<98>>, E2 >>, << G4, G4, G4, G4, <<120>> >>, <<>> }
 cOpsCore == {"new","from_str","from_static","with_capacity","clone","drop","reserve","shrink_to",
              "push_str","pop","clear","truncate","remove","insert_str"}
-cOpsAll == cOpsCore \cup {"from_char","clone_from","retain","extend","collect","display"}
+cOpsAll == cOpsCore \cup {"from_char","clone_from","retain","extend","collect","display","clone_ovf"}
 cOpsMut == {"clone","drop","reserve","shrink_to","push_str","pop","clear","truncate","remove","insert_str","clone_from","retain","extend"}
 cOpsIdx == {"truncate","remove","insert_str"}
 cSeedsEmpty == { <<>> }
